@@ -380,7 +380,11 @@ class HedTag:
 
         if stripped_value:
             if unit_entry.get_conversion_factor(unit) is not None:
-                return float(stripped_value) * unit_entry.get_conversion_factor(unit)
+                try:
+                    return float(stripped_value) * unit_entry.get_conversion_factor(unit)
+                except ValueError:
+                    # What stands before the unit is not a number (e.g. '3 x ms'): no value, as documented.
+                    return None
 
     @property
     def unit_classes(self):
